@@ -5,7 +5,10 @@ if [ $# -eq 0 ]; then set -- $(ls seeded); fi
 for d in "$@"; do
   d="$(basename "$d")"; pid="${d%%-*}"
   [ -f "seeded/$d/patch.diff" ] || continue
-  out="$(MUT_LINES=3 tools/mutest.sh "seeded/$d/patch.diff" "$pid" quick 2>&1)"
+  ov="$(python3 -c "import json,sys; m=json.load(open('seeded/CAUGHT_BY.json')); v=m.get(sys.argv[1]); print(' '.join(v) if v else '')" "$d" 2>/dev/null)"
+  chk="$pid"; tier=quick
+  if [ -n "$ov" ]; then chk="${ov%% *}"; tier="${ov##* }"; fi
+  out="$(MUT_LINES=3 tools/mutest.sh "seeded/$d/patch.diff" "$chk" "$tier" 2>&1)"
   verdict="$(echo "$out" | grep -E "^(CAUGHT|MISSED|PATCH-FAILED|FAULT)" | head -1)"
   first="$(echo "$out" | grep "detail:" | head -1 | cut -c1-220)"
   echo "$d | ${verdict:-?} | $first"
